@@ -224,14 +224,14 @@ Plan generate_plan(const std::string &lane, uint64_t seed, int tier) {
         Op *o = pre(OP_create_array, "a"); o->a[1] = 0; o->a[5] = 0;
         o = pre(OP_create_section, "a"); o->a[1] = 0;
         o = pre(OP_create_tag, "a"); o->a[1] = 0;
-        if (lane == "delete" || r.chance(1, 2)) { o = pre(OP_mk_graph, "%"); o->a[0] = 0; }
+        if (lane == "delete" ? r.chance(2, 3) : r.chance(1, 3)) { o = pre(OP_mk_graph, "%"); o->a[0] = 0; o->a[1] = 0; }
     }
     if (lane == "reject") {
         // two blocks with the same linked structure in each: "an entity of another block" (with and without a local namesake) is
         // available to every link operation from the start
-        Op *o = pre(OP_mk_graph, "%"); o->a[0] = 0;
+        Op *o = pre(OP_mk_graph, "%"); o->a[0] = 0; o->a[1] = 0; o->a[2] = 0;
         o = pre(OP_create_block, "b");
-        o = pre(OP_mk_graph, "%"); o->a[0] = 1;
+        o = pre(OP_mk_graph, "%"); o->a[0] = 1; o->a[1] = 1; o->a[2] = 0;
     }
     int pending_ro = 0;     // ops left in a read-only session before the plan reopens RW
     bool after_flush = false;
